@@ -5,7 +5,10 @@ R1 fresh names: a directory not fixed by the binding is `join(<allocated target>
    `random_name` draws a `uuid.uuid4()` on every call (no decorator, no global state; every returned value is computed
    from a uuid4 drawn in that call, followed through local temporaries, every alternative of a conditional / `or`, and a
    parameterless helper of the program that is itself fresh per call); `_set_job_directories` names each
-   of the three job directories through its *own* `_get_directory` call, keyed on the same field of the same job; the
+   of the three job directories through its *own* `_get_directory` call, keyed on the same field of the same job -- or,
+   when the helper was inlined, through its own `job.<dir> or join(<get_allocation(job.name)>.target.workdir,
+   random_name())` written out in place (`or` / conditional expression, operands followed through locals; no join call
+   or drawn name shared between two directories); the analysis refuses only when neither shape is present; the
    only pre-set values are the step-level directories handed to `Job(...)` (written once, in `ScheduleStep.__init__`).
 R2 order in `ScheduleStep._schedule` (dominance on the CFG): awaited `scheduler.schedule` precedes awaited
    `_set_job_directories(<allocated locations>, job)`, which precedes the registration loop, which precedes the single
@@ -75,7 +78,7 @@ DIRS = ("input_directory", "output_directory", "tmp_directory")
 META = {
     "explanation": (
         "AST/CFG/def-use rules over ScheduleStep._schedule, ScheduleStep._set_job_directories (and every override), "
-        "_get_directory, random_name and the Job(...) constructions of ScheduleStep.run: origin of directory names, "
+        "_get_directory (or its body inlined into _set_job_directories), random_name and the Job(...) constructions of ScheduleStep.run: origin of directory names, "
         "dominance order schedule -> create -> register -> publish JobToken, loop coverage of locations x directories "
         "for mkdir and for registration, await of the creation tasks, None-resolution guard. Decides necessary "
         "structural conditions; no directory is created and no job is scheduled."
@@ -175,46 +178,93 @@ def _fresh_per_call(p, f, depth=3) -> bool:
         and all(_draws_uuid(p, f, r.value, depth) for r in rets)
 
 
+def _follow_local(f, v):
+    """Follow a local to its single plain assignment (origins() would split an IfExp)."""
+    for _ in range(4):
+        ds = defs_of(f, v.id) if is_name(v) else []
+        if len(ds) == 1 and ds[0].kind == "assign" and ds[0].index is None:
+            v = ds[0].value
+    return v
+
+
+def _fixed_or_fresh(p, f, v, is_fixed, is_workdir):
+    """(ok, [join calls and the name expressions they join]): `v` (a local is followed to its single plain assignment) is `<fixed> or join(<workdir>,
+    random_name())` -- the `or` short-circuit, or the conditional expression spelling it (`fixed if fixed else ..`,
+    `.. if not fixed else fixed`).  `is_fixed` / `is_workdir` say what the binding-fixed directory and the working
+    directory of the allocated target look like where the expression lives (parameters of `_get_directory`, or the
+    job field / the allocation of the job when the expression is written out in `_set_job_directories`)."""
+    v = _follow_local(f, v)
+    if isinstance(v, ast.BoolOp) and isinstance(v.op, ast.Or) and len(v.values) == 2 and is_fixed(v.values[0]):
+        alt = v.values[1]
+    elif isinstance(v, ast.IfExp) and is_fixed(v.test) and is_fixed(v.body):
+        alt = v.orelse
+    elif isinstance(v, ast.IfExp) and isinstance(v.test, ast.UnaryOp) and isinstance(v.test.op, ast.Not) \
+            and is_fixed(v.test.operand) and is_fixed(v.orelse):
+        alt = v.body
+    else:
+        return False, []
+    alts = origins(f, alt)
+    oks = [bool(alts)]
+    for j in alts:
+        oks.append(
+            isinstance(j, ast.Call)
+            and isinstance(j.func, ast.Attribute)
+            and j.func.attr == "join"
+            and len(j.args) == 2
+            and not j.keywords
+            and is_workdir(j.args[0])
+            and any(isinstance(o, ast.Call) and resolves_to(p, f, o, RANDOM) and not o.args and not o.keywords
+                    for o in origins(f, j.args[1]))
+            and all(isinstance(o, ast.Call) and resolves_to(p, f, o, RANDOM) for o in origins(f, j.args[1]))
+        )
+    return all(oks), [*alts, *(o for j in alts if isinstance(j, ast.Call) and len(j.args) == 2 for o in origins(f, j.args[1]))]
+
+
+def _is_alloc_target(p, f, e, job_p) -> bool:
+    """`e` is `<scheduler.get_allocation(job.name)>.target` (the receiver and the attribute followed through locals)."""
+    os_ = origins(f, e)
+    return bool(os_) and all(
+        isinstance(o, ast.Attribute) and o.attr == "target" and bool(origins(f, o.value)) and all(
+            isinstance(oo, ast.Call) and resolves_to(p, f, oo, f"{SCHEDULER}.get_allocation")
+            and len(oo.args) == 1 and not oo.keywords and attr_of(oo.args[0], job_p) == "name"
+            for oo in origins(f, o.value))
+        for o in os_)
+
+
+def _is_job_field(f, e, job_p, d) -> bool:
+    os_ = origins(f, e)
+    return bool(os_) and all(attr_of(o, job_p) == d for o in os_)
+
+
+def _inline_naming(f, a: ast.Assign):
+    """The right-hand side of `job.<dir> = ...` when it spells the choice out in place (an `or` / a conditional
+    expression, possibly through a local) instead of calling `_get_directory`; None otherwise."""
+    v = _follow_local(f, a.value)
+    return v if isinstance(v, (ast.BoolOp, ast.IfExp)) else None
+
+
+def _names_directory(p, f, n: ast.Assign) -> bool:
+    """`n` (an assignment to `job.<dir>`) chooses the name: through `_get_directory(...)` or written out in place."""
+    return any(isinstance(o, ast.Call) and resolves_to(p, f, o, GETDIR) for o in origins(f, n.value)) \
+        or _inline_naming(f, n) is not None
+
+
 def r1(ctx):
     p = ctx.prog
-    # ---- _get_directory
-    f = p.func(GETDIR)
-    ctx.require(len(f.params) == 3, "C15.R1: _get_directory signature changed")
-    pp_p, dir_p, tgt_p = f.params
-    rets = [n for n in f.body_nodes() if isinstance(n, ast.Return)]
-    ctx.require(len(rets) >= 1, "C15.R1: _get_directory has no return")
-    for r in rets:
-        oks = []
-        msg = f"`{unparse(r)}` is not `<fixed directory> or join(<target>.workdir, random_name())`"
-        v = r.value
-        for _ in range(4):  # follow a local to its single plain assignment (origins() would split an IfExp)
-            ds = defs_of(f, v.id) if is_name(v) else []
-            if len(ds) == 1 and ds[0].kind == "assign" and ds[0].index is None:
-                v = ds[0].value
-        for v in [v] if v is not None else []:
-            if isinstance(v, ast.BoolOp) and isinstance(v.op, ast.Or) and len(v.values) == 2 and is_name(v.values[0], dir_p):
-                alt = v.values[1]
-            elif isinstance(v, ast.IfExp) and is_name(v.test, dir_p) and is_name(v.body, dir_p):
-                alt = v.orelse
-            else:
-                oks.append(False)
-                continue
-            alts = origins(f, alt)
-            oks.append(bool(alts))
-            for j in alts:
-                good = (
-                    isinstance(j, ast.Call)
-                    and isinstance(j.func, ast.Attribute)
-                    and j.func.attr == "join"
-                    and len(j.args) == 2
-                    and attr_of(j.args[0], tgt_p) == "workdir"
-                    and any(isinstance(o, ast.Call) and resolves_to(p, f, o, RANDOM) and not o.args and not o.keywords
-                            for o in origins(f, j.args[1]))
-                    and all(isinstance(o, ast.Call) and resolves_to(p, f, o, RANDOM) for o in origins(f, j.args[1]))
-                )
-                oks.append(good)
-        ctx.ob("R1", "a directory not fixed by the binding is join(target.workdir, random_name())", bool(oks) and all(oks), func=f, node=r,
-               instance="_get_directory:return", message=msg)
+    # ---- _get_directory (when the helper was inlined into its caller the same obligation is read off the expression
+    #      written out in _set_job_directories, below)
+    getdir = f = p.functions.get(GETDIR)
+    if f is not None:
+        ctx.require(len(f.params) == 3, "C15.R1: _get_directory signature changed")
+        pp_p, dir_p, tgt_p = f.params
+        rets = [n for n in f.body_nodes() if isinstance(n, ast.Return)]
+        ctx.require(len(rets) >= 1, "C15.R1: _get_directory has no return")
+        for r in rets:
+            msg = f"`{unparse(r)}` is not `<fixed directory> or join(<target>.workdir, random_name())`"
+            ok = r.value is not None and _fixed_or_fresh(
+                p, f, r.value, lambda x: is_name(x, dir_p), lambda x: attr_of(x, tgt_p) == "workdir")[0]
+            ctx.ob("R1", "a directory not fixed by the binding is join(target.workdir, random_name())", ok, func=f, node=r,
+                   instance="_get_directory:return", message=msg)
     # ---- random_name
     rn = p.func(RANDOM)
     rets = [n for n in rn.body_nodes() if isinstance(n, ast.Return)]
@@ -222,40 +272,67 @@ def r1(ctx):
     fresh = not rn.params and _fresh_per_call(p, rn)
     ctx.ob("R1", "random_name draws uuid.uuid4() on every call (no decorator, no cached value)", fresh, func=rn, node=rn.node,
            instance="random_name:fresh", message="random_name is cached / not uuid4 based: two jobs can get the same directory")
-    # ---- _set_job_directories: one _get_directory call per field, keyed on the same field
+    # ---- _set_job_directories: one naming per field -- its own _get_directory call, or the same choice written out in
+    #      place (helper inlined) -- keyed on the same field of the same job and on the job's allocated target
     f = p.func(SETDIRS)
     job_p = _job_param(ctx, f)
     seen_calls: dict[int, str] = {}
+    per_field = {}
     for d in DIRS:
         asg = [
             n for n in f.body_nodes()
             if isinstance(n, ast.Assign) and any(attr_of(t, job_p) == d for t in n.targets)
         ]
-        named = []
+        named, inline = [], []
         for a in asg:
+            v = _inline_naming(f, a)
+            if v is not None:
+                inline.append((a, v))
+                continue
             for o in origins(f, a.value):
                 if isinstance(o, ast.Call) and resolves_to(p, f, o, GETDIR):
                     named.append((a, o))
-        if not named:
+        per_field[d] = (asg, named, inline)
+    # the helper is gone and nothing spells the choice out either: the anchor vanished (not a violation)
+    ctx.require(getdir is not None or any(inl for _, _, inl in per_field.values()),
+                f"C15.R1: anchor {GETDIR} not found and no `<job dir> or join(<target>.workdir, random_name())` "
+                f"written out in {SETDIRS}")
+    for d in DIRS:
+        asg, named, inline = per_field[d]
+        if not named and not inline:
             ctx.ob("R1", f"{d} is named through _get_directory", False, func=f, node=asg[0] if asg else f.node,
                    instance=f"setdirs:name:{d}", message=f"{job_p}.{d} is never named by its own _get_directory(...) call")
         for a, c in named:
             fixed = kwarg(c, "directory", 1)
             tgt = kwarg(c, "target", 2)
             ok_field = fixed is not None and attr_of(fixed, job_p) == d
-            ok_tgt = False
-            if tgt is not None and isinstance(tgt, ast.Attribute) and tgt.attr == "target":
-                ok_tgt = all(
-                    isinstance(o, ast.Call) and resolves_to(p, f, o, f"{SCHEDULER}.get_allocation")
-                    and len(o.args) == 1 and attr_of(o.args[0], job_p) == "name"
-                    for o in origins(f, tgt.value)
-                )
+            ok_tgt = tgt is not None and _is_alloc_target(p, f, tgt, job_p)
             dup = seen_calls.get(id(c))
             seen_calls[id(c)] = d
             ctx.ob("R1", f"{d} is named by its own _get_directory call keyed on {job_p}.{d} and the allocated target",
                    ok_field and ok_tgt and dup is None and len(a.targets) == 1, func=f, node=a, instance=f"setdirs:name:{d}",
                    message=(f"{d} shares its generated name with {dup}" if dup else
                             f"`{unparse(c)}` does not name {d} from `{job_p}.{d}` / the job's allocated target"))
+        for a, v in inline:
+            # the obligation of the vanished helper, decided where the expression now lives ...
+            is_workdir = lambda x: bool(origins(f, x)) and all(  # noqa: E731
+                isinstance(o, ast.Attribute) and o.attr == "workdir" and _is_alloc_target(p, f, o.value, job_p)
+                for o in origins(f, x))
+            ok_shape, _ = _fixed_or_fresh(p, f, v, lambda x: any(_is_job_field(f, x, job_p, dd) for dd in DIRS), is_workdir)
+            ctx.ob("R1", "a directory not fixed by the binding is join(<allocated target>.workdir, random_name()) (written out "
+                         "in _set_job_directories)", ok_shape, func=f, node=a, instance=f"setdirs:inline:{d}",
+                   message=f"`{unparse(v)[:140]}` is not `<fixed directory> or join(<allocated target>.workdir, random_name())`")
+            # ... and the obligation of the call site: its own choice, keyed on the same field
+            ok_field, joins = _fixed_or_fresh(p, f, v, lambda x: _is_job_field(f, x, job_p, d), lambda x: True)
+            joins = joins if ok_field else [n for n in ast.walk(v) if isinstance(n, ast.Call)]
+            dup = next((seen_calls[id(j)] for j in [v, *joins] if id(j) in seen_calls), None)
+            for j in [v, *joins]:
+                seen_calls[id(j)] = d
+            ctx.ob("R1", f"{d} keeps `{job_p}.{d}` when the binding fixed it and is otherwise named by its own expression",
+                   (ok_field or not ok_shape) and dup is None and len(a.targets) == 1, func=f, node=a,
+                   instance=f"setdirs:name:{d}",
+                   message=(f"{d} shares its generated name with {dup}" if dup else
+                            f"`{unparse(v)[:140]}` does not name {d} from `{job_p}.{d}`"))
     # ---- Job(...) constructions of ScheduleStep (and subclasses): directories come from the step's fixed values
     for cq in [SCHED_STEP, *p.subclasses(SCHED_STEP)]:
         for m in p.cls(cq).methods.values():
@@ -704,7 +781,7 @@ def r3(ctx):
            message="_set_job_directories issues no mkdir")
     name_nodes = [
         i for n in f.body_nodes() if isinstance(n, ast.Assign) and any(attr_of(t, job_p) in DIRS for t in n.targets)
-        and any(isinstance(o, ast.Call) and resolves_to(p, f, o, GETDIR) for o in origins(f, n.value))
+        and _names_directory(p, f, n)
         for i in g.ids_of(n)
     ]
     resolve_nodes = [n.id for n in g.nodes.values() if any(
@@ -850,6 +927,15 @@ _CHECKS = ("    if input_directory is None:\n        raise WorkflowExecutionExce
            "    if tmp_directory is None:\n        raise WorkflowExecutionException(f'Job {self.name} cannot resolve tmp directory: {job.tmp_directory}')\n")
 _CHECK_LOOP = ("    for kind, resolved, directory in (('input', input_directory, job.input_directory), ('output', output_directory, job.output_directory), ('tmp', tmp_directory, job.tmp_directory)):\n"
                "        if resolved is None:\n            raise WorkflowExecutionException(f'Job {self.name} cannot resolve {kind} directory: {directory}')\n")
+
+
+
+def _naming(form, fields=DIRS, keyed=None):
+    return "".join("    job.%s = %s\n" % (d, form.format(d=(keyed or {}).get(d, d))) for d in fields)
+
+
+_NAMING = _naming("_get_directory(path_processor, job.{d}, allocation.target)")
+_INLINE = "job.{d} or path_processor.join(allocation.target.workdir, utils.random_name())"
 
 VARIANTS = [
     # ---- R1
@@ -1013,4 +1099,28 @@ VARIANTS = [
     V("merged test is a conjunction: one None directory passes", SFILE, SETDIRS, _CHECKS,
       "    if input_directory is None and output_directory is None and tmp_directory is None:\n"
       "        raise WorkflowExecutionException(f'Job {self.name} cannot resolve its directories')\n", "R3"),
+    # ---- _get_directory inlined into _set_job_directories (fx9: B18-8): the choice written out at each call site
+    V("_get_directory inlined at its three call sites", SFILE, SETDIRS, _NAMING, _naming(_INLINE), None),
+    V("inlined as conditional expressions over hoisted temporaries", SFILE, SETDIRS, _NAMING,
+      "    target = allocation.target\n    workdir = target.workdir\n"
+      + _naming("job.{d} if job.{d} else path_processor.join(workdir, utils.random_name())"), None),
+    V("inlined, the chosen value bound to a local first", SFILE, SETDIRS, _NAMING,
+      _naming(_INLINE, DIRS[:2]) + "    chosen = " + _INLINE.format(d="tmp_directory") + "\n    job.tmp_directory = chosen\n", None),
+    V("only one call site inlined", SFILE, SETDIRS, _naming("_get_directory(path_processor, job.{d}, allocation.target)", DIRS[2:]),
+      _naming(_INLINE, DIRS[2:]), None),
+    V("inlined: output directory kept from the input field", SFILE, SETDIRS, _NAMING,
+      _naming(_INLINE, keyed={"output_directory": "input_directory"}), "R1"),
+    V("inlined: constant name instead of random_name()", SFILE, SETDIRS, _NAMING,
+      _naming("job.{d} or path_processor.join(allocation.target.workdir, 'job')"), "R1"),
+    V("inlined: joined to another workdir", SFILE, SETDIRS, _NAMING,
+      _naming(_INLINE, DIRS[:2]) + "    job.tmp_directory = job.tmp_directory or path_processor.join(allocation.target.deployment.workdir, utils.random_name())\n", "R1"),
+    V("inlined: one generated path shared by the three directories", SFILE, SETDIRS, _NAMING,
+      "    fresh = path_processor.join(allocation.target.workdir, utils.random_name())\n" + _naming("job.{d} or fresh"), "R1"),
+    V("inlined: one random name shared by the three directories", SFILE, SETDIRS, _NAMING,
+      "    name = utils.random_name()\n" + _naming("job.{d} or path_processor.join(allocation.target.workdir, name)"), "R1"),
+    V("inlined: the fixed directory is dropped (always a fresh name)", SFILE, SETDIRS, _NAMING,
+      _naming(_INLINE, DIRS[:2]) + "    job.tmp_directory = path_processor.join(allocation.target.workdir, utils.random_name())\n", "R1"),
+    V("inlined: workdir of another job's allocation", SFILE, SETDIRS, _NAMING,
+      "    other = self.workflow.context.scheduler.get_allocation(self.name)\n"
+      + _naming("job.{d} or path_processor.join(other.target.workdir, utils.random_name())"), "R1"),
 ]
